@@ -202,6 +202,18 @@ impl Runner {
         }
         if g.ftype!=sh.ftype && !(self.fs.starts_with("cpm") || self.fs=="fat") { return Err(format!("C01 {}: type {:?} read back as {:?}",path,sh.ftype,g.ftype)); }
         if g.aux!=sh.aux && !sh.aux.is_empty() { return Err(format!("C01 {}: aux {:?} read back as {:?}",path,sh.aux,g.aux)); }
+        // access bits, apart from the archive / changed flags the file system sets itself on every write and the CP/M interface
+        // attributes (name bytes 5-8), which are never stored
+        let masked = |a: &Vec<u8>| -> Vec<u8> {
+            let mut m = a.clone();
+            match self.fs.as_str() {
+                "prodos" | "fat" => { if m.len()>0 { m[0] &= !0x20; } },
+                "cpm2" | "cpm3" => { for i in 4..8 { if i<m.len() { m[i] = 0; } } if m.len()>10 { m[10] = 0; } },
+                _ => {}
+            }
+            m
+        };
+        if !sh.access.is_empty() && masked(&g.access)!=masked(&sh.access) { return Err(format!("C01 {}: access bits {:?} read back as {:?}",path,sh.access,g.access)); }
         Ok(g)
     }
 
@@ -226,6 +238,8 @@ impl Runner {
         // CP/M: the access field carries the high bits of the 11 name bytes; those of bytes 5-8 are interface attributes that are
         // never stored on disk -- a file image that has them set is still a file image of this file
         if self.fs.starts_with("cpm") && f.access.len()==11 && id%3==0 { f.access[4 + id%4] |= 0x80; }
+        // the attributes f1-f4 and "system" are stored in every directory entry of the file and have no effect on the operations
+        if self.fs.starts_with("cpm") && f.access.len()==11 && id%2==0 { f.access[id%4] |= 0x80; if id%4==2 { f.access[9] |= 0x80; } }
         sh.ftype = f.fs_type.clone(); sh.aux = f.aux.clone(); sh.access = f.access.clone();
         let key = norm_path(&self.fs,path);
         let existed = self.shadow.contains_key(&key);
